@@ -236,6 +236,16 @@ func repeatMain(w *out.W, tier string) {
 			w.Violation(id, "hash-depends-on-history", fmt.Sprintf("variant %d: the checksum of a MemDir after overwriting files differs from the checksum of a new MemDir with the same files: %s", v, firstDiff(b1, b2)))
 		}
 	}
+	// (a4) the same for a LocalDir: files written, hashed (sum file written), then a file rewritten with SHORTER
+	// content, one deleted, the sum written again -> files, sum file and Validate as for a new directory
+	for v := 0; v < nVariants; v++ {
+		id := fmt.Sprintf("localdir-after-rewrite/%d", v)
+		w.ImplOnly(id, "LocalDir written, hashed, files rewritten shorter / removed, hashed again vs a new LocalDir with the same content")
+		w.Count("hash-history")
+		if msg := localDirHistory(v); msg != "" {
+			w.Violation(id, "hash-depends-on-history", fmt.Sprintf("variant %d: %s", v, msg))
+		}
+	}
 	// (b) fresh processes
 	self, _ := os.Executable()
 	for p := 0; p < procs; p++ {
@@ -411,4 +421,82 @@ func runTimeout(cmd *exec.Cmd, d time.Duration) ([]byte, error) {
 		cmd.Process.Kill()
 		return b.Bytes(), fmt.Errorf("timeout after %s", d)
 	}
+}
+
+// localDirHistory returns "" when a LocalDir that went through a write history equals a new one with the same files.
+func localDirHistory(v int) string {
+	mk := func() (*migrate.LocalDir, string, error) {
+		tmp, err := os.MkdirTemp("", "detldir")
+		if err != nil {
+			return nil, "", err
+		}
+		d, err := migrate.NewLocalDir(tmp)
+		return d, tmp, err
+	}
+	sum := func(d *migrate.LocalDir) error {
+		h, err := d.Checksum()
+		if err != nil {
+			return err
+		}
+		return migrate.WriteSumFile(d, h)
+	}
+	files := dirFiles(v)
+	d1, t1, err := mk()
+	if err != nil {
+		return err.Error()
+	}
+	defer os.RemoveAll(t1)
+	final := map[string]string{}
+	for _, f := range files {
+		if strings.HasSuffix(f[0], ".sql") {
+			d1.WriteFile(f[0], []byte(f[1]+"-- a long trailer that will be cut off again .........................................\n"))
+			final[f[0]] = f[1]
+		}
+	}
+	if err := sum(d1); err != nil {
+		return "first sum: " + err.Error()
+	}
+	k := 0
+	for _, f := range files {
+		if !strings.HasSuffix(f[0], ".sql") {
+			continue
+		}
+		if k%3 == 2 {
+			os.Remove(filepath.Join(t1, f[0]))
+			delete(final, f[0])
+		} else {
+			d1.WriteFile(f[0], []byte(final[f[0]])) // shorter than before
+		}
+		k++
+	}
+	if err := sum(d1); err != nil {
+		return "second sum: " + err.Error()
+	}
+	d2, t2, err := mk()
+	if err != nil {
+		return err.Error()
+	}
+	defer os.RemoveAll(t2)
+	for n, b := range final {
+		d2.WriteFile(n, []byte(b))
+	}
+	if err := sum(d2); err != nil {
+		return "fresh sum: " + err.Error()
+	}
+	if err := migrate.Validate(d1); err != nil {
+		return "the rewritten directory does not validate right after its sum was written: " + err.Error()
+	}
+	for n := range final {
+		b1, _ := os.ReadFile(filepath.Join(t1, n))
+		b2, _ := os.ReadFile(filepath.Join(t2, n))
+		if !bytes.Equal(b1, b2) {
+			return fmt.Sprintf("file %s differs from a newly written one: %s", n, firstDiff(b2, b1))
+		}
+	}
+	s1, _ := os.ReadFile(filepath.Join(t1, migrate.HashFileName))
+	s2, _ := os.ReadFile(filepath.Join(t2, migrate.HashFileName))
+	if !bytes.Equal(s1, s2) {
+		return "atlas.sum differs from the one of a new directory with the same files: " + firstDiff(s2, s1)
+	}
+	return ""
 }
